@@ -467,7 +467,7 @@ def gen_value(w: World, t, depth: int):
     size = lambda: rng.randint(0, 3) if depth > 0 else rng.randint(0, 1)
     if k == "any":
         r = rng.random()
-        if w.profile.get("any_structured", False) and r < 0.3 and w.pycls:
+        if w.profile.get("any_structured", False) and r < 0.3 and w.pycls and depth > 0:
             cid = rng.randrange(len(w.pycls))
             return gen_value(w, ("class", cid), depth - 1)
         if r < 0.5:
